@@ -399,7 +399,7 @@ class Interp:
                         except Exception:
                             pass
                 return ('extern', modname, orig)
-            if e.id in ('len', 'next', 'iter', 'reversed', 'list', 'enumerate', 'isinstance', 'str', 'int', 'float', 'dict', 'tuple', 'range', 'bool', 'min', 'max',
+            if e.id in ('len', 'next', 'iter', 'reversed', 'list', 'enumerate', 'isinstance', 'str', 'int', 'float', 'dict', 'tuple', 'range', 'bool', 'min', 'max', 'complex',
                         'ord', 'chr', 'callable'):
                 return ('builtin', e.id)
             self.bad(e, f'unknown name {e.id}')
